@@ -726,6 +726,42 @@ class IRContext:
             prefer_np_dtype=prefer_np_dtype,
         )
 
+    @staticmethod
+    def _pack_complex_constant_payload(v: ir.Value, target_enum: ir.DataType) -> None:
+        """A complex constant that is declared as a real pair also stores the pair."""
+        const = getattr(v, "const_value", None)
+        if const is None:
+            return
+        arr = np.asarray(const.numpy())
+        if not np.iscomplexobj(arr):
+            return
+        real_dtype = np.float64 if target_enum == ir.DataType.DOUBLE else np.float32
+        packed = np.stack([arr.real, arr.imag], axis=-1).astype(real_dtype)
+        v.const_value = ir.tensor(packed, name=v.name)
+
+    def pack_unconsumed_complex_inputs(self) -> None:
+        """Declare complex graph inputs that no lowering packed as a trailing pair of reals.
+
+        Plugins re-type a complex input when they consume it; an argument that is
+        not used at all would otherwise stay a native complex tensor.
+        """
+        for val in self.builder.inputs:
+            val_type = val.type
+            dtype = val_type.dtype if isinstance(val_type, ir.TensorType) else None
+            if dtype not in (ir.DataType.COMPLEX64, ir.DataType.COMPLEX128):
+                continue
+            if val.uses():
+                continue
+            base = (
+                ir.DataType.DOUBLE
+                if dtype == ir.DataType.COMPLEX128
+                or self.builder.enable_double_precision
+                else ir.DataType.FLOAT
+            )
+            dims = tuple(val.shape.dims) if isinstance(val.shape, ir.Shape) else ()
+            val.type = ir.TensorType(base)
+            val.shape = ir.Shape(dims + (2,))
+
     def add_outputs_from_vars(self, outvars: Sequence[Any]) -> None:
         for i, var in enumerate(outvars):
             v = self.get_value_for_var(var, name_hint=f"out_{i}")
@@ -741,6 +777,7 @@ class IRContext:
                 dims.append(2)
                 v.type = ir.TensorType(target_enum)
                 v.shape = _to_ir_shape(tuple(dims))
+                self._pack_complex_constant_payload(v, target_enum)
                 self.builder.outputs.append(v)
                 continue
             if np_dtype is not None:
